@@ -372,7 +372,7 @@ func (h *NativeHashSet[V]) Equal(thread *Thread, other value.Value) (result bool
 	case HashSet:
 		return h.EqualInterface(thread, other)
 	default:
-		return false, value.NewCoerceError(value.HashSetClass, other.Class()).ToValue()
+		return false, value.Undefined
 	}
 }
 
